@@ -210,7 +210,18 @@ func genHist(r *rng.R, maxLen int) Hist {
 	var h Hist
 	nctx := 1 + r.Intn(3)
 	for i := 0; i < nctx; i++ {
-		h.Cfgs = append(h.Cfgs, genCfg(r))
+		c := genCfg(r)
+		// some later contexts are further requests through the middleware instance of an earlier one
+		if i > 0 && r.Intn(2) == 0 {
+			j := r.Intn(i)
+			if h.Cfgs[j].MW {
+				if h.Cfgs[j].Inst == 0 {
+					h.Cfgs[j].Inst = j + 1
+				}
+				c.MW, c.Classes, c.Inst = true, h.Cfgs[j].Classes, h.Cfgs[j].Inst
+			}
+		}
+		h.Cfgs = append(h.Cfgs, c)
 	}
 	n := 1 + r.Intn(maxLen)
 	for i := 0; i < n; i++ {
@@ -221,7 +232,7 @@ func genHist(r *rng.R, maxLen int) Hist {
 
 // opsOf lists the uses a history makes in context c (what spec "proj c h" is).
 func (h Hist) only(c int) Hist {
-	out := Hist{Cfgs: []Cfg{h.Cfgs[c]}}
+	out := Hist{Cfgs: []Cfg{h.Cfgs[c]}, Pages: h.Pages}
 	for _, co := range h.Ops {
 		if co.Ctx == c {
 			out.Ops = append(out.Ops, COp{Ctx: 0, Op: co.Op})
